@@ -9,6 +9,7 @@ Two oracles on every generated program:
       values in the cells that are active in the masked run.
 """
 import math
+import os
 from fractions import Fraction as Fr
 
 from hypothesis import strategies as st
@@ -776,15 +777,22 @@ def render(case, all_active=False):
 # --------------------------------------------------------------------------- generator
 # combinations that run into known defects of the library (see known_findings.jsonl); they are
 # generated only in a small share of the cases so that they cannot mask anything else
+# VERIF_C12_IGNORE_KNOWN=key1,key2 (read only here): treat these known_findings.jsonl lines as absent,
+# i.e. a violation with that key is reported strictly and its trigger is generated at full rate.
+# Used to verify a fix of the corresponding defect.
+IGNORE_KNOWN = set(k for k in os.environ.get("VERIF_C12_IGNORE_KNOWN", "").split(",") if k)
+
+
 def gated(kw, name, dst_glob=False):
     info = ARR[name]
+    key = None
     if kw in ("EQUALREG", "ADDREG", "MULTIREG") and info["typ"] == "i":
-        return True            # region operations on integer arrays are ignored by the library
-    if kw in ("ADD", "ADDREG") and info["dim"] == "Temperature":
-        return True            # shift converted as an absolute temperature
-    if kw == "COPYREG" and info["glob"]:
-        return True            # global storage not refreshed
-    return False
+        key = "regop-int-ignored"          # region operations on integer arrays are ignored by the library
+    elif kw in ("ADD", "ADDREG") and info["dim"] == "Temperature":
+        key = "add-temperature-offset"     # shift converted as an absolute temperature
+    elif kw == "COPYREG" and info["glob"]:
+        key = "copyreg-global-stale"       # global storage not refreshed
+    return key is not None and key not in IGNORE_KNOWN
 
 
 class Gen:
@@ -1153,6 +1161,10 @@ class C12(Check):
 
     def strategy(self, tier):
         return cases(tier)
+
+    def known_key(self, case, viol):
+        k = viol.get("key")
+        return None if k in IGNORE_KNOWN else k
 
     # ------------------------------------------------------------ classification
     def classify(self, case):
